@@ -78,6 +78,12 @@ func evidenceCases(r *sim.Rng, count int, cw *sim.CaseWriter) {
 		b := n.Reps[0].B
 		ctl := n.Reps[0].Ctl
 		ctl.MinEvidenceHeight = r.Pick(0, 0, 0, 5, 6, 8)
+		// or: the answer depends on the root height asked about, as on a real root chain; what counts as expired NOW is decided by
+		// the replica's current root height (7), not by the height the evidence itself is from
+		if r.Chance(50) {
+			ctl.UnstakingBlocks = r.Pick(1, 2)
+			ctl.MinEvidenceHeight = 7 - ctl.UnstakingBlocks
+		}
 		ctl.AlreadySlashed = map[string]bool{}
 		var invalid []string
 		for i := 0; i < len(powers); i++ {
